@@ -226,3 +226,32 @@ Proof.
   destruct H as (_ & H2 & H3). split; [exact H2|].
   destruct best as [c|]; [|exact H3]. destruct H3 as ([Hin | Hin] & Hk); [split; [exact Hin | exact Hk] | discriminate].
 Qed.
+
+(* ---- Line1::try_from_points ---- *)
+
+Lemma lit_1em12_pos : 0 < Rlit 1 (-12).
+Proof. unfold Rlit. apply Rdiv_lt_0_compat; [lra|]. apply IZR_lt. reflexivity. Qed.
+
+(* the line through two samples with distinct abscissae passes through both, whichever is given first, and the two orders give the same line *)
+Theorem line_two_points_through (x0 y0 x1 y1 m b : R) :
+  @line_two_points RNum x0 y0 x1 y1 = Ok (m, b) ->
+  m * x0 + b = y0 /\ m * x1 + b = y1 /\ @line_two_points RNum x1 y1 x0 y0 = Ok (m, b).
+Proof.
+  unfold line_two_points. cbn [nmul nsub ndiv nadd nabs nltb nlit RNum].
+  destruct (Rlt_bool (Rabs (x1 - x0)) (Rlit 1 (-12))) eqn:E; [discriminate|]. rbool.
+  assert (Hd : x1 - x0 <> 0).
+  { intros Z. rewrite Z, Rabs_R0 in E. pose proof lit_1em12_pos. lra. }
+  intros H. inversion H; subst; clear H. change (@num RNum) with R in *.
+  split; [field; exact Hd|]. split; [field; exact Hd|].
+  replace (x0 - x1) with (- (x1 - x0)) by ring. rewrite Rabs_Ropp.
+  destruct (Rlt_bool (Rabs (x1 - x0)) (Rlit 1 (-12))) eqn:E2; [rbool; lra|].
+  f_equal. apply f_equal2; field; lra.
+Qed.
+
+(* it is refused exactly when the abscissae are closer than 1e-12, in either order *)
+Theorem line_two_points_refused (x0 y0 x1 y1 : R) :
+  @line_two_points RNum x0 y0 x1 y1 = Err <-> Rabs (x1 - x0) < Rlit 1 (-12).
+Proof.
+  unfold line_two_points. cbn [nmul nsub ndiv nadd nabs nltb nlit RNum].
+  destruct (Rlt_bool (Rabs (x1 - x0)) (Rlit 1 (-12))) eqn:E; rbool; split; intros H; try exact E; try reflexivity; try discriminate; lra.
+Qed.
